@@ -182,6 +182,10 @@ func genArgs(d *Def, inFile string) []string {
 	if strings.Contains(d.Opts, "T") {
 		args = append(args, "-text=false")
 	}
+	if strings.Contains(d.Opts, "D") {
+		// only set on definitions WITHOUT trait columns, where the option must not change anything
+		args = append(args, "-disableTraits")
+	}
 	if len(d.Parsable) > 0 {
 		args = append(args, "-parsableByTraits", strings.Join(d.Parsable, ","))
 	}
